@@ -272,10 +272,152 @@ class Prop:
         return dict(kind='acc', asn=65000, rid=0x01000001, confed=confed, restarting=rng.random() < 0.15,
                     groups=groups, statics=statics, ops=[list(o) for o in ops])
 
+    # ---- enumerated classes (every run)
+    def enum_neg(self):
+        """capability x {absent, present, duplicate} on either side; every add-path mode pair; orderings; GR / LLGR"""
+        out = []
+        F = IPV4
+        def both(cls, l, r, smax=((IPV4, 8),)):
+            out.append(dict(kind='neg', l=list(l), r=list(r), fams=sorted(FAMS), cls=cls))
+            out.append(dict(kind='sess', l=list(l), r=list(r), smax=[list(x) for x in smax], fams=sorted(FAMS), cls=cls))
+        kinds = {
+            'mp_v6': ('mp', IPV6), 'mp_vpn': ('mp', IPV4_VPN), 'mp_lu': ('mp', IPV4_LU), 'extmsg': ('extmsg',),
+            'as4_2octet': ('as4', 65000), 'as4_4octet': ('as4', 70000), 'as4_trans': ('as4', 23456),
+            'enh': ('enh', [(IPV4, 2)]), 'enh_wrong_afi': ('enh', [(IPV4, 1)]), 'enh_v6_family': ('enh', [(IPV6, 2)]),
+            'rr': ('rr',), 'err': ('err',), 'unknown': ('unknown', 99, [1, 2]), 'fqdn': ('fqdn', [104], [100]),
+            'gr': ('gr', 4, 90, [(F, 128)]), 'llgr': ('llgr', [(F, 128, 60)]), 'addpath': ('addpath', [(F, 3)]),
+        }
+        variants = {'absent': lambda c: [], 'present': lambda c: [c], 'duplicate': lambda c: [c, c]}
+        base = [('mp', F)]
+        for name, cap in kinds.items():
+            for ln, lv in variants.items():
+                for rn, rv in variants.items():
+                    both('cap_%s_%s_%s' % (name, ln, rn), base + lv(cap), base + rv(cap))
+        # the family itself: absent / present / duplicate on either side, with add-path entries present regardless
+        for ln, lv in variants.items():
+            for rn, rv in variants.items():
+                both('cap_mp_v4_%s_%s' % (ln, rn), lv(('mp', F)) + [('addpath', [(F, 3)])], rv(('mp', F)) + [('addpath', [(F, 3)])])
+        # every pair of add-path modes (0-3 and the invalid 4, 7), send-max 1 and 8
+        for lm in (0, 1, 2, 3, 4, 7):
+            for rm in (0, 1, 2, 3, 4, 7):
+                for sm in (1, 8):
+                    both('addpath_mode_%d_%d' % (lm, rm), base + [('addpath', [(F, lm)])], base + [('addpath', [(F, rm)])], smax=((F, sm),))
+        # several entries for one family: in one capability, in two, in either order (the last one counts)
+        for a in (0, 1, 2, 3):
+            for b in (0, 1, 2, 3):
+                both('addpath_two_entries', base + [('addpath', [(F, a), (F, b)])], base + [('addpath', [(F, 3)])])
+                both('addpath_two_caps', base + [('addpath', [(F, a)]), ('addpath', [(F, b)])], base + [('addpath', [(F, 3)])])
+                both('addpath_two_caps_remote', base + [('addpath', [(F, 3)])], [('addpath', [(F, a)]), ('mp', F), ('addpath', [(F, b)])])
+        # orderings inside the OPEN: ADD-PATH before MultiProtocol etc.
+        four = [('mp', F), ('addpath', [(F, 3)]), ('as4', 65000), ('extmsg',)]
+        fixed = list(four)
+        for perm in itertools.permutations(four):
+            both('order_local', perm, fixed)
+            both('order_remote', fixed, perm)
+        # graceful restart: flags, family lists, several capabilities (the first counts)
+        grl = [[], [(F, 0)], [(F, 128), (IPV6, 0)], [(IPV6, 0)], [(F, 0), (F, 128)]]
+        for lf in grl:
+            for rf in grl:
+                for lfl, rfl in ((0, 0), (4, 4), (4, 0), (12, 4), (8, 12)):
+                    both('gr_matrix', base + [('mp', IPV6), ('gr', lfl, 120, lf)], base + [('mp', IPV6), ('gr', rfl, 90, rf)])
+        both('gr_two_caps', base + [('gr', 0, 120, [(IPV6, 0)]), ('gr', 0, 120, [(F, 0)])], base + [('gr', 0, 90, [(F, 0)])])
+        both('gr_two_caps', base + [('gr', 0, 120, [(F, 0)])], base + [('gr', 0, 90, [(IPV6, 0)]), ('gr', 0, 90, [(F, 0)])])
+        both('gr_time_bounds', base + [('gr', 0, 0, [(F, 0)])], base + [('gr', 0, 4095, [(F, 0)])])
+        # LLGR: stale times 0 / 1 / 60 / 2^24-1 on either side, repeated families, several capabilities
+        times = (0, 1, 60, 16777215)
+        for lt in times:
+            for rt in times:
+                both('llgr_times', base + [('llgr', [(F, 0, lt)])], base + [('llgr', [(F, 128, rt)])])
+        for a in (0, 60):
+            for b in (0, 60):
+                both('llgr_repeated_family', base + [('llgr', [(F, 0, a), (F, 0, b)])], base + [('llgr', [(F, 0, 0)])])
+                both('llgr_repeated_family', base + [('llgr', [(F, 0, 0)])], base + [('llgr', [(F, 0, a), (F, 0, b)])])
+                both('llgr_two_caps', base + [('llgr', [(F, 0, a)]), ('llgr', [(F, 0, b)])], base + [('llgr', [(F, 0, 0), (IPV6, 0, 60)])])
+        return out
+
+    def enum_acc(self):
+        out = []
+        com = dict(rr=[False, None], multihop=None, ttlsec=None, families=[], send_max=[], gr=None, llgr=None)
+        def P(**kw):
+            p = dict(com); p.update(expected=65001, local_asn=0, passive=True, rs=False, delete=False, admin_down=False, hold=180, prefix_limits=[])
+            p.update(kw); return p
+        def G(**kw):
+            g = dict(com); g.update({'as': 65001, 'local_asn': 0, 'prefixes': [], 'rs': False, 'hold': None, 'passive': True})
+            g.update(kw); return g
+        def case(cls, groups, statics, ops, confed=None, restarting=False):
+            out.append(json.loads(json.dumps(dict(kind='acc', asn=65000, rid=0x01000001, confed=confed, restarting=restarting,
+                                                  groups=groups, statics=statics, ops=[list(o) for o in ops], cls=cls))))
+        a1, a2 = self.ADDRS[0], self.ADDRS[2]
+        # admin-down x direction x existing connection (configured neighbour), and the same for a dynamic one
+        for down in (False, True):
+            for role in (0, 1):
+                for pre in ([], [('connect', a1, role)], [('connect', a1, 1 - role)], [('connect', a1, 0), ('connect', a1, 1)]):
+                    case('admin_x_role', [], [dict(addr=a1, params=P(admin_down=down), group=None)], pre + [('connect', a1, role), ('connect', a1, 1 - role)])
+                    case('admin_x_role_toggle', [], [dict(addr=a1, params=P(), group=None)],
+                         pre + [('admin', a1, down), ('connect', a1, role), ('admin', a1, not down), ('connect', a1, role)])
+                    case('admin_x_role_dynamic', [G(prefixes=[(4, [127, 0, 0, 0], 8)])], [], pre + [('admin', a1, down), ('connect', a1, role), ('connect', a1, 1 - role)])
+                    case('disable_enable', [G(prefixes=[(4, [127, 0, 0, 0], 8)])], [dict(addr=a2, params=P(), group=None)],
+                         pre + [('connect', a2, role), ('disable', a2 if down else a1, 0), ('connect', a2, role), ('connect', a1, role),
+                                ('enable', a2, 0), ('connect', a2, role)])
+        # every prefix against every address, both directions
+        for n in self.NETS:
+            for a in self.ADDRS:
+                for role in (0, 1):
+                    case('prefix_x_address', [G(prefixes=[n])], [], [('connect', a, role), ('disconnect', a, role), ('connect', a, role)])
+        # role derivation: peer AS x local AS x route-server x route-reflector x confederation
+        for expected in (0, 65000, 65001, 65009, 64999):
+            for la in (0, 65000, 64999):
+                for rs in (False, True):
+                    for rr in ([False, None], [True, None], [True, 0x0a000001], [False, 0x0a000001]):
+                        for confed in (None, [65100, [65001, 65002]], [65100, [65000, 65001]]):
+                            case('role_matrix', [], [dict(addr=a1, params=P(expected=expected, local_asn=la, rs=rs, rr=rr), group=None)],
+                                 [('connect', a1, 1)], confed=confed)
+                            case('role_matrix_dynamic', [G(**{'as': expected, 'local_asn': la, 'rs': rs, 'rr': rr, 'prefixes': [(4, [127, 0, 0, 0], 8)]})],
+                                 [], [('connect', a1, 1)], confed=confed)
+        # TTL: multihop x GTSM x internal / external
+        for mh in (None, 5, 255):
+            for ts in (None, 1, 10):
+                for expected in (65000, 65001):
+                    case('ttl_matrix', [], [dict(addr=a1, params=P(expected=expected, multihop=mh, ttlsec=ts), group=None)], [('connect', a1, 1)])
+                    case('ttl_matrix_dynamic', [G(**{'as': expected, 'multihop': mh, 'ttlsec': ts, 'prefixes': [(4, [127, 0, 0, 0], 8)]})], [], [('connect', a1, 0)])
+        # peer-group inheritance, field by field: the neighbour sets it or not, the group sets it or not
+        fam1, fam2 = [[IPV4, 3]], [[IPV6, 1], [IPV4_VPN, 0]]
+        fields = [('expected', 'as', 0, 65001, 65009), ('local_asn', 'local_asn', 0, 64999, 64998), ('hold', 'hold', 180, 30, 90),
+                  ('multihop', 'multihop', None, 5, 7), ('ttlsec', 'ttlsec', None, 1, 10), ('families', 'families', [], fam1, fam2),
+                  ('gr', 'gr', None, [120, True, [IPV4]], [90, False, [IPV6]]), ('llgr', 'llgr', None, [[IPV4, 60]], [[IPV6, 1]]),
+                  ('passive', 'passive', False, True, True), ('rs', 'rs', False, True, True),
+                  ('rr', 'rr', [False, None], [True, 0x0a000001], [True, None])]
+        for pf, gf, unset, v1, v2 in fields:
+            for pv in (unset, v1):
+                for gv in ((None if gf == 'hold' else unset), v2):
+                    p = P(**{pf: pv}); g = G(**{gf: gv})
+                    if pf == 'families':
+                        p['send_max'] = [[IPV4, 4]] if pv else []; g['send_max'] = [[IPV6, 2]] if gv else []
+                    case('inherit_%s' % pf, [g], [dict(addr=a1, params=p, group=0)], [('connect', a1, 1)])
+        # hold times a group / neighbour can carry, including the ones that cannot be advertised
+        for h in (0, 1, 2, 3, 180, 65535, 65536):
+            case('hold_values', [G(hold=h, prefixes=[(4, [127, 0, 0, 0], 8)])], [dict(addr=a2, params=P(hold=h), group=None)],
+                 [('connect', a1, 1), ('connect', a2, 1)])
+        # a dynamic neighbour's life: both directions, last connection, disable, delete, delete + reconnect
+        g = [G(prefixes=[(4, [127, 0, 0, 0], 16)])]
+        case('dynamic_lifecycle', g, [], [('connect', a1, 0), ('connect', a1, 1), ('disconnect', a1, 0), ('connect', a1, 1), ('disconnect', a1, 1), ('connect', a1, 1)])
+        case('dynamic_lifecycle', g, [], [('connect', a1, 1), ('disable', a1, 0), ('connect', a1, 1), ('connect', a1, 0)])
+        case('dynamic_lifecycle', g, [], [('connect', a1, 1), ('admin', a1, True), ('connect', a1, 0), ('disconnect', a1, 1), ('connect', a1, 1)])
+        case('dynamic_lifecycle', g, [], [('connect', a1, 1), ('delete', a1, 0), ('connect', a1, 1)])
+        case('dynamic_lifecycle', g, [dict(addr=a1, params=P(), group=None)], [('connect', a1, 1), ('delrace', a1, 1), ('disconnect', a1, 1)])
+        case('dynamic_lifecycle', g, [dict(addr=a1, params=P(), group=None)], [('connect', a1, 0), ('connect', a1, 1), ('delrace', a1, 0), ('connect', a1, 0)])
+        # overlapping dynamic prefixes in two / three groups
+        for hs in ((30, 90), (90, 30), (30, 90, 3)):
+            case('overlapping_groups', [G(hold=h, prefixes=[(4, [127, 0, 0, 0], 8 + 4 * k)]) for k, h in enumerate(hs)], [], [('connect', a1, 1)])
+        # configured twice; restarting speaker
+        case('configured_twice', [], [dict(addr=a1, params=P(hold=30), group=None), dict(addr=a1, params=P(hold=90), group=None)], [('connect', a1, 1)])
+        case('restarting', g, [dict(addr=a2, params=P(gr=[120, True, [IPV4]]), group=None)], [('connect', a1, 1), ('connect', a2, 1)], restarting=True)
+        return out
+
     def gen_cases(self, rng, tier):
-        cases = []
-        for _ in range(400 if tier == 'quick' else 4000):
-            cases.append(json.loads(json.dumps(self.gen_acc(rng))))
+        cases = self.enum_neg() + self.enum_acc()
+        for _ in range(300 if tier == 'quick' else 4000):
+            c = json.loads(json.dumps(self.gen_acc(rng))); c['cls'] = 'random'; cases.append(c)
         reps = 2 if tier == 'quick' else 12
         for _ in range(reps):
             for mask in list(range(0, 33)) + [33, 40, 255]:
@@ -284,14 +426,14 @@ class Prop:
             for mask in list(range(0, 129)) + [129, 135, 255]:
                 for canonical in (True, False):
                     cases.append(self.gen_net(rng, 6, mask, canonical))
-        n = 1200 if tier == 'quick' else 12000
+        n = 800 if tier == 'quick' else 12000
         for k in range(n):
             l, r = self.gen_caps(rng), self.gen_caps(rng)
             if k % 2 == 0:
-                cases.append(dict(kind='neg', l=l, r=r, fams=sorted(FAMS)))
+                cases.append(dict(kind='neg', l=l, r=r, fams=sorted(FAMS), cls='random'))
             else:
                 smax = [(f, rng.choice([1, 2, 8])) for f in FAMS if rng.random() < 0.6]
-                cases.append(dict(kind='sess', l=l, r=r, smax=smax, fams=sorted(FAMS)))
+                cases.append(dict(kind='sess', l=l, r=r, smax=smax, fams=sorted(FAMS), cls='random'))
         return cases
 
     # ---- running
@@ -609,7 +751,7 @@ class Prop:
         return None
 
     def classify(self, c, obs):
-        tags = [c['kind']]
+        tags = [c['kind'], 'class_%s' % (c.get('cls') or ('mask_%d' % c['net'][2] if c['kind'] == 'net' else 'corpus'))]
         if c['kind'] == 'acc' and obs != [-1]:
             if any(o[0] for o in obs[2:]): tags.append('accepted')
         if c['kind'] == 'net':
